@@ -372,6 +372,19 @@ class World:
             f.write(json.dumps({g: {n: dict(ent) for n, ent in grp} for g, grp in table}, indent=2))
         return p
 
+    def put_foreign_file(self, dirpath, name):
+        """a file that is not the library's: a *.json whose name is not a checksum (an editor's index.json, a README.json ...);
+        its content is an empty JSON object"""
+        if self.sym:
+            gf = _GFile(dirpath + '/' + name, dirpath)
+            gf.state = 'garbage'
+            self.files.append(gf)
+            return gf
+        p = dirpath + '/' + name
+        with open(p, 'w') as f:
+            f.write('{}')
+        return p
+
     def file_written_for(self, dirpath, crc):
         """handle of the file <dirpath>/<%08X of crc>.json (None if there is none)"""
         if self.sym:
@@ -625,6 +638,39 @@ def _select(layout):
 
 for _l in LAYOUTS:
     _select(_l)
+
+
+@contract('C11', 'fetch.foreign-file-names', [TC + ':TocCache.__init__', TC + ':TocCache.fetch', TC + ':TocCache._decoder'],
+          clause=P_EQ + '; an otherwise unparsable cache file is a miss, never a failed connection - also a *.json in a cache directory whose '
+                 'NAME is not a checksum (index.json, README.json: not written by the library): the cache object is still constructed and the '
+                 'tables stored under their checksum are still found',
+          bounded='one single-entry table in the read-write directory; foreign names index.json / README.json / 12.json in both directories')
+def fetch_foreign_names(c):
+    w = World(c)
+    ro, rw = w.mkdir('ro'), w.mkdir('rw')
+    c.let('ro', ro), c.let('rw', rw)
+    name = c.choice('foreign_name', ['index.json', 'README.json', '12.json'])
+    w.put_foreign_file(ro, name)
+    w.put_foreign_file(rw, name)
+    crc = c.int('crc', 0, 2 ** 32 - 1)
+    kb = c.choice('kind_b', ['log', 'param'])
+    fb = fields(c, 'b', kb)
+    w.put_file(rw, c.int('crc_b', 0, 2 ** 32 - 1), [(dict(fb)['group'], [(dict(fb)['name'], entry(kb, fb))])])
+    c.let('flat_b', (flat_of(kb, fb),))
+    c.call(c.cls(TC + ':TocCache'), ro_cache=ro, rw_cache=rw)
+    c.ensure('cache-object-constructed', "raised is None and typename(result) == 'TocCache'")
+    if c.get('raised') is not None:
+        w.close()
+        return
+    cache = c.get('result')
+    c.reset_trace()
+    c.call((cache, 'fetch'), crc)
+    c.ensure('no-exception', 'raised is None')
+    c.ensure('hit-iff-announced-checksum-is-stored', 'iff(result is not None, crc == crc_b)')
+    if c.get('result') is not None:
+        c.ensure('identical-table', 'flat(result) == flat_b')
+    c.ensure('foreign-file-never-opened', 'all(e[1][0] == rw + "/%08X.json" % crc or e[1][0] == ro + "/%08X.json" % crc for e in sent("open"))')
+    w.close()
 
 
 def _other_version(kind):
